@@ -62,7 +62,7 @@ theorem refinesU3 (k0 k1 k2 : Nat) :
             have h01 := h0.2
             simp only [List.all_eq_true, beq_iff_eq] at h01 h2
             simp [kindSpec, Nested.rank, Nested.outerOk, Nested.innerOk, h0.1, Nested.flat]
-            exact ⟨fun h => absurd h01 h, h2⟩
+            rw [if_neg (fun ⟨x, hx, hc⟩ => hc (h01 x hx)), if_pos h2]
           rw [hS]
           simp only [kindU3, h0, and_self, if_true]
           rw [show (planes.map fun p => p.map MArr1.fromIter) = planes from
@@ -72,8 +72,7 @@ theorem refinesU3 (k0 k1 k2 : Nat) :
           have h01 := h0.2
           simp only [List.all_eq_true, beq_iff_eq] at h01
           simp [kindSpec, Nested.rank, Nested.outerOk, Nested.innerOk, h0.1]
-          refine ⟨fun h => absurd h01 h, ?_⟩
-          simpa using h2
+          rw [if_neg (fun ⟨x, hx, hc⟩ => hc (h01 x hx)), if_neg (fun h => h2 (by simpa using h))]
       · have hS : (kindSpec false false [k0, k1, k2]).fromNested (.n3 planes) = .na := by
           simp [kindSpec, Nested.rank, Nested.outerOk]
           intro ha hb; exact absurd ⟨ha, by simpa using hb⟩ h0
@@ -160,7 +159,7 @@ theorem refinesU3 (k0 k1 k2 : Nat) :
         have hS : (kindSpec false false [k0, k1, k2]).tryFrom (.n3 v) = firstErr (flat3 v) := by
           simp [kindSpec, Nested.rank, Nested.shapeOk, Nested.outerOk, Nested.innerOk, hsh.1, Nested.flat,
             flatten3_eq]
-          intro h1 x hx r hr hc; exact absurd ((hsh.2 x hx).2 r hr) hc
+          intro h1; obtain ⟨x, hx, r, hr, hc⟩ := h1 (fun x hx => (hsh.2 x hx).1); exact absurd ((hsh.2 x hx).2 r hr) hc
         rw [hS, firstErr_eq]
         simp only [kindU3, hsh.1, hb, and_self, if_true, tryFrom3_even]
         cases hfe : firstErrE (flat3 v) with
